@@ -168,6 +168,11 @@ class ListenSocket:
         self.listening = False
         if self.net.listener is self:
             self.net.listener = None
+        # connections still waiting in the accept queue die with the listener (the peer sees a
+        # reset); they are not handed to whoever listens on the port next
+        for conn in self.net.backlog:
+            conn.server_closed = True
+        del self.net.backlog[:]
         self.net.log.ev("net", "listener-close")
 
     def shutdown(self, how):
@@ -247,7 +252,11 @@ class ClientConn:
     def drain(self):
         """Everything the server wrote until it closed the connection."""
         conn = self.conn
-        conn.net.kernel.block(lambda: conn.server_closed, None, "client.drain")
+        # EOF for the client = the server closed, or shut down its sending side; a client that reads
+        # to EOF then closes its own end
+        conn.net.kernel.block(lambda: conn.server_closed or conn.server_shutdown_wr, None,
+                              "client.drain")
+        conn.client_closed = True
         return bytes(conn.s2c)
 
     def half_close(self):
